@@ -25,6 +25,70 @@ CLAIMED = {
                 "masked array that C07 proves the backends refine); explicit MapSpecs only (auto-generation exercised, not modelled); "
                 "oracle hypothesis body_arity; harness/mapsym.py structural functions.",
     },
+    "C02": {
+        "design_ref": "DESIGN.md section 5 / C02",
+        "technique": "Coq proof (fuelled run vs. structural eval, frontier invariant for arg_combinations) over a Gallina model of Pipeline.run/_run + differential correspondence with structural user functions",
+        "text": "For an arbitrary user-code oracle: run = eval on well-formed pipelines (complete case analysis incl. body errors and surplus keywords), the "
+                "call log contains exactly the needed functions once each with producers before consumers, invariance under listing permutation, "
+                "full_output completeness, supplied intermediates replace producers, every arg_combinations entry is accepted. Real pipelines with "
+                "structural bodies (any routing/count difference observable) are compared per run; two defects repaired.",
+        "note": "Trusted: Coq kernel; hand-written model Model/Pipe.v; networkx mirrored by Base/Graph.v (soundness proved, agreement by correspondence); "
+                "scopes, caches, hooks, resources not modelled.",
+    },
+    "C03": {
+        "design_ref": "DESIGN.md section 5 / C03",
+        "technique": "Coq proof for EVERY completion order (permutation) of a generation-wise parallel model on top of the sequential map model + correspondence with a controllable concurrent.futures.Executor and real thread/process pools",
+        "text": "par_equiv_seq: for all schedules the returned and stored arrays equal the sequential run's (dumps go to distinct keys, results are paired "
+                "by submission slot), calls_exactly_once (log is a permutation of the expected calls), barrier, single_dump (worker xor parent). The real "
+                "_process_task is driven through every completion order of small generations via the public executor= argument, sync and async, all "
+                "storages and executor assignments; real pools with injected delays sample the rest.",
+        "note": "PARTIAL by nature: pre-emptive interleavings inside workers, the shared_memory_dict manager process, pickling and OS scheduling are sampled, not "
+                "proved. Trusted: Coq kernel; Model/ParGen.v; harness scheduler.",
+    },
+    "C04": {
+        "design_ref": "DESIGN.md section 5 / C04",
+        "technique": "Coq round-trip and reload proofs over models of the RunInfo JSON codec and of the run folder as a finite map + same-process / fresh-interpreter reload correspondence",
+        "text": "decode(encode ri) = ri for every well-formed RunInfo (and the RunInfo of any valid request is well-formed); load_outputs on the reopened "
+                "folder returns the run's stored value (= the C01 denotation) for every persisting storage in any interpreter; loads are idempotent and "
+                "leave the folder content unchanged. Real runs are reloaded in the same process and in fresh child interpreters.",
+        "note": "PARTIAL: cloudpickle fidelity and JSON text layout are assumed; xarray reload compared structurally. Trusted: Coq kernel; hand-written codec/FS models.",
+    },
+    "C10": {
+        "design_ref": "DESIGN.md section 5 / C10",
+        "technique": "Coq proofs that rename/scope/join/split/nest preserve evaluation (for an arbitrary oracle) + a heap model of object aliasing (no in-place write, mutation isolation) + rewrite/aliasing-probe correspondence",
+        "text": "rename/update_renames/scope preserve eval literally, dotted vs nested kwargs equivalent, join/split preserve reachable evaluation, nest sound and "
+                "complete (up to fuel), copy/pickle identity, add_mapspec_axis keeps specs well-formed and consistent and reaches all dependants; heap model: no "
+                "operation writes a pre-existing location, hence later mutations are isolated. simplify_preserves and value-level add_axis lifting are "
+                "checked by correspondence only; one recorded finding (simplify with a shared dependency). Eight defects repaired.",
+        "note": "PARTIAL: Python object identity is modelled by the heap model and validated by aliasing probes; pickling trusted; simplify and add_axis values "
+                "not proved. Trusted: Coq kernel; hand-written models.",
+    },
+    "C11": {
+        "design_ref": "DESIGN.md section 5 / C11",
+        "technique": "Coq proof over a model of subpipeline/_find_nodes_between on Base/Graph + differential correspondence (subpipeline, map(output_names), auto_subpipeline)",
+        "text": "subpipeline keeps the needed functions and their values, map on the subpipeline returns eval of the full pipeline and calls exactly the kept "
+                "functions once, uncomputable requests are rejected; exactness of the kept set holds when all provided names are root arguments (partial) and is "
+                "refuted otherwise (two witnesses); five recorded findings on the real code, two defects repaired.",
+        "note": "Trusted: Coq kernel; hand-written model; completeness of Graph.reach only by correspondence with networkx.",
+    },
+    "C13": {
+        "design_ref": "DESIGN.md section 5 / C13",
+        "technique": "Coq proof over error-propagation models of pipeline calls and of sequential/executor map runs (exception terms, notes, generations, stores) + failing-invocation correspondence with timeouts",
+        "text": "The first raising invocation surfaces with the exception term unchanged and a note naming that function and exactly its kwargs; nothing of a later "
+                "generation runs; results of completed generations stay stored; reproduce gives the same exception; the failing function is entered once. "
+                "Every (function, call index) of generated pipelines/map requests is made to raise four exception kinds under run, sequential, thread and "
+                "process execution; completion is enforced by a hard timeout. Two recorded findings (elements of the failing generation not kept on the "
+                "sequential path), two defects repaired.",
+        "note": "PARTIAL: 'returns instead of hanging' is checked by timeout, not proved; cross-process pickling of exceptions restricted to class and args. "
+                "Trusted: Coq kernel; hand-written models.",
+    },
+    "C18": {
+        "design_ref": "DESIGN.md section 5 / C18",
+        "technique": "Coq proof over a heap-of-thunks model of lazy pipelines (allocation order = recursion order) + differential correspondence incl. task graphs",
+        "text": "nothing runs before evaluate, lazy value = eager value = spec (incl. raising bodies), every needed function is called exactly once across any number "
+                "of evaluate() calls, the recorded DAG is acyclic and its edges are exactly the producer->consumer/picker dependencies.",
+        "note": "Trusted: Coq kernel; hand-written model Model/Lazy.v; full_output=True dicts and lazy+cache covered by correspondence only.",
+    },
     "C07": {
         "design_ref": "DESIGN.md section 5 / C07",
         "technique": "Coq refinement proof (FileArray and DictArray models refine a masked n-d array, by induction over operation sequences) + per-run differential correspondence",
